@@ -592,6 +592,32 @@ def resync(rep, lib):
 
 # ------------------------------------------------------------------ C01-INPUT-DECIDES
 
+INPUT_CALLS = ("reader::Reader::<R>::next", "reader::Reader::<R>::peek", "reader::Reader::<R>::eat_whitespace",
+               "reader::Reader::<R>::read_digits", "::next_json_value", "::read_array", "::read_object", "::read_string",
+               "::read_number", "::read_true", "::read_false", "::read_null", "::read_reserved_word", "::parse_to_double")
+
+
+def _state_origins(b, pr, atoms, depth):
+    """Descriptions of the origins among `atoms` that are the reader's own state: `self` (parameter 1) directly, or a
+    call other than the input-reading ones whose arguments reach `self` (where_am_i(), a depth getter ...)."""
+    out = set()
+    for a in atoms:
+        if a[0] == "arg" and a[1] == 1:
+            out.add("self%s" % "".join("." + str(p) for p in a[2]))
+        elif a[0] == "call" and depth < 3:
+            c = b.call_at.get(a[1])
+            if c is None:
+                continue
+            n = c.name or ""
+            if any(n.endswith(x) for x in INPUT_CALLS):
+                continue
+            for i in range(len(c.args)):
+                sub = _state_origins(b, pr, pr.call_arg_origins(c, i), depth + 1)
+                if sub:
+                    out.add("%s(%s)" % (n.rsplit("::", 1)[-1], ", ".join(sorted(sub))[:60]))
+    return out
+
+
 def input_decides(rep, lib):
     """A value is rejected only because of its own bytes."""
     from lib.prov import Prov
@@ -632,7 +658,7 @@ def input_decides(rep, lib):
                 if t["k"] != "switch":
                     continue
                 at = pr.origins_at(t["discr"], x, len(b.stmts(x)))
-                args = sorted(str(a) for a in at if a[0] == "arg")
+                args = sorted(_state_origins(b, pr, at, 0))
                 if args:
                     bad = (x, args)
             if bad:
